@@ -342,6 +342,36 @@ Proof.
     sbind ltac:(apply sim_load_nums; assumption). deq. ssolve.
 Qed.
 
+(* unwrapBasicvalue over the argument cells of sprintf / printf *)
+Lemma sim_fargs f r1 r2 : lrels f r1 r2 ->
+  sim f (eqrel (list Builtins.farg))
+    (mapM (fun a => let* v := unwrap_any a in
+                    match v with
+                    | HNum x => ret (Builtins.FNum x)
+                    | HStr x => ret (Builtins.FStr x)
+                    | HBool b => ret (Builtins.FBool b)
+                    | _ => let* x := show_str a in ret (Builtins.FStr x)
+                    end) r1)
+    (mapM (fun a => let* v := unwrap_any a in
+                    match v with
+                    | HNum x => ret (Builtins.FNum x)
+                    | HStr x => ret (Builtins.FStr x)
+                    | HBool b => ret (Builtins.FBool b)
+                    | _ => let* x := show_str a in ret (Builtins.FStr x)
+                    end) r2).
+Proof.
+  intro A. eapply sim_conseq; [|eapply (sim_mapM lrel (eqrel Builtins.farg)); [ | apply ext_refl | exact A]].
+  - intros f' x y H. apply listrel_eq in H. exact H.
+  - intros f' E' k1 k2 K. sbind ltac:(apply sim_unwrap_any; exact K).
+    match goal with H : hvrel _ _ _ |- _ => destruct H end; try prim;
+      (sbind ltac:(apply sim_show_str; eassumption); deq; prim).
+Qed.
+
+Ltac sprintf_tac :=
+  sargs; try prim; sbind sub1;
+  match goal with H : hvrel _ _ _ |- _ => destruct H end; try prim;
+  sbind ltac:(apply sim_fargs; assumption); deq; ssolve.
+
 Lemma sim_builtin name f e1 e2 a1 a2 :
   envrel f e1 e2 -> lrels f a1 a2 ->
   match builtin name e1 a1, builtin name e2 a2 with
@@ -353,7 +383,7 @@ Proof.
   intros E A. unfold builtin.
   repeat match goal with
          | |- match (if ?c then _ else _) with _ => _ end =>
-             destruct c; [try apply sim_read_body; solve [ssolve]|]
+             destruct c; [first [apply sim_read_body | solve [ssolve] | solve [sprintf_tac]]|]
          end.
   apply sim_pure_builtin; assumption.
 Qed.
